@@ -644,7 +644,7 @@ func (r *runner) closeProc(p *proc) {
 
 // settle waits for asynchronous releases (session-cache removal goroutines) and returns the live-secret count.
 func (r *runner) settle(p *proc) int {
-	deadline := time.Now().Add(2 * time.Second)
+	deadline := time.Now().Add(20 * time.Second)
 	for {
 		n := len(p.sf.Live())
 		// only cached sessions are torn down asynchronously (go Remove()); everything else is synchronous
